@@ -8,6 +8,48 @@ HERE = os.path.dirname(os.path.dirname(os.path.abspath(__file__)))
 HOOK_COMMITS = ["6e1d5dd", "092527b", "70942f2", "7e1ebbc"]
 
 CHECKS = {
+    "C05": dict(
+        text="TLC evaluates the Batch specification (Parser index maps and the padded-orbital pack map transcribed with exact integer arithmetic) on every batch of an enumerated lattice: the index structure of a molecule in any batch is its solo structure shifted (Transparent), row reversal and extra padding columns only re-base it (PermInvariant, PadInvariant), pack is a bijection on physical orbitals. Every exported batch is run through the real Parser with three padding-coordinate conventions and every index tensor compared exactly; pack/unpack are decoded on self-describing matrices against the spec's map (single, homogeneous and mixed batch paths). Value transparency (molecule in batch vs alone; row orders, extra padding, padding coordinates, five solver configurations) and exactly-zero padding forces are monitored with stated tolerances; per-molecule convergence masks are C03's Frozen/NoReactivation.",
+        note="Index lattice: <=2 (thorough 3) rows, <=3 atoms, species {H,(C),O}; value layouts are a sample drawn by VERIF_SEED; tolerances 1e-7 (energy-like) / 1e-6 (force-like) at scf_eps 1e-10, observed deviations <=1e-3 of them. Same-element relabelling and MD trajectory independence are covered only indirectly.",
+        tech="explicit TLA+ specification (Batch) evaluated exhaustively by TLC as index oracle; exact comparison with the real Parser/pack; monitored value predicates",
+        ref="DESIGN.md §4 C05",
+    ),
+    "C08": dict(
+        text="Partial: decides the kick-drift-kick structure, force at the new positions, and that written thermo belongs to the written phase point, and transfers exact momentum / angular-momentum conservation and reversibility from an exact model. TLC checks VVExact (dyadic-rational velocity Verlet, 3 particles, masses {1,2}, dt 1/2, linear springs, optional field) over the initial-condition lattice; order mutants are refuted. Every exported behaviour is replayed on the real Molecular_Dynamics_Basic.run (stub ES = the same springs, dyadic masses) and coordinates, velocities, forces, Ek, Ep, T rows of the HDF5 output must equal the exact rationals to 1e-11 for their own step label.",
+        note="Not decided: global order / energy drift on the real SCF surface. Exact model limited to <=3 steps by 32-bit integers. Unit constants are the driver's own literals.",
+        tech="explicit TLA+ exact-arithmetic model (VVExact) checked by TLC; TLC-exported behaviours replayed on the real integrator and compared with the model's rationals",
+        ref="DESIGN.md §4 C08",
+    ),
+    "C12": dict(
+        text="Partial: decides operator structure O-(BAFB)-O, two noise draws per step, tau=inf == NVE, T=0 dissipates, padding untouched. TLC checks VVExact with the Langevin wrapping (c1 in {1,1/2}, c2 = A/m, TLC-chosen +-1 noise patterns): OIdentity, ODissipates, Exact; behaviours are replayed on the real Molecular_Dynamics_Langevin (and damped XL_BOMD) with c1/c2 set to the dyadic values and torch.randn_like returning the pattern; HDF5 rows must equal the exact rationals and exactly 2 draws per step are consumed. Public constructor: damp=inf reproduces the NVE files bit for bit, Temp=0 never increases kinetic energy across an O operator, padding velocities stay 0 for three inheriting engines.",
+        note="Not decided: the fluctuation-dissipation identity / canonical sampling (formulas for c1, c2 use exp/expm1/sqrt; statistical statement).",
+        tech="explicit TLA+ exact-arithmetic model (VVExact, Langevin engine) checked by TLC; exported behaviours replayed on the real thermostat step",
+        ref="DESIGN.md §4 C12",
+    ),
+    "C13": dict(
+        text="TLC checks MDInit (seeding order, RNG stream position, DoF table per engine and COM mode, three initial-velocity branches, COM-removal schedule) over engines x COM modes x velocity sources x seeds x prior RNG histories; two deviations (seed applied late, supplied velocities stripped) are refuted as spec mutants. All 216 exported configurations are replayed on the real run loop: n_dof, number of normal draws, COM calls (iteration, mode) equal the model's; seeded runs are bitwise identical whatever was drawn before; seeds 1 and 2 differ; supplied velocities are the step-0 row bit for bit; padding atoms at rest. Monitored: T0=T, P=0, L=0 for drawn velocities, momenta zero / kinetic energy preserved around every COM removal (all <=1e-15 observed).",
+        note="Stub electronic structure; padded NH3+H2O batch; known finding: angular COM removal with a linear molecule (DoF 3N-6 = 0 for a diatomic) fails.",
+        tech="explicit TLA+ model (MDInit) checked by TLC; every exported configuration replayed on the real MD prologue and compared with the model",
+        ref="DESIGN.md §4 C13",
+    ),
+    "C15": dict(
+        text="TLC checks Session (hidden process state: SCF class attributes, the element list stored in the caller's dict, pending autograd graphs) over all call histories up to length 4-5 drawn from a pool of 9 heterogeneous jobs (tight/loose implicit-backward jobs, dict reuse with new elements, a failing call, CIS, UHF, SP2+unrolled backward, XL-BOMD MD + resume): InputsOnlyForward, InputsOnlyBackward, DictStable; the two shipped deviations are refuted as spec mutants. Histories are exported with the expected hidden state after every prefix; sampled histories are executed in one child each on the real API and after every action the real hidden state must equal the model's, and every job's outputs (energies, forces, charges, gap, CIS energies, MD phase point, gradients of summed losses) must equal bitwise those of the same job run first in a fresh process; thread counts 2/4/16 vs 1 within 1e-9.",
+        note="Driver objects are created per call (reuse of a driver across element sets is not in the pool). Shared mutable default dicts are observed to accumulate keys that are always overwritten before being read; they are reported, not modelled.",
+        tech="explicit TLA+ model (Session) checked by TLC over call histories; TLC-exported histories replayed on the real API with hidden-state comparison after every call",
+        ref="DESIGN.md §4 C15",
+    ),
+    "C18": dict(
+        text="TLC enumerates the Guards decision table (request records over 11 finite coordinates; verdict = first guard the code reaches, with stage and exception class) and checks DocumentedRejected, EarlyEnough, NoSpuriousReject on every row. One replay per exported row (quick: sample of single-fault, accepted and multi-fault rows; thorough: all ~10^4) on the real API (single point or one MD step): raised-vs-returned must equal the verdict, after a raise nothing may have been published on the molecule, returned rows must be finite or flagged. 25 stress inputs (0.5x-30x geometries, charges +-2/+4, third-row elements, four methods) must be finite or flagged.",
+        note="Malformed variants derive from two valid base batches (2xH2O, H2O+CH4). Two late rejections in MD (CIS on a heterogeneous batch, RPA) are known findings. Guards of options outside the listed preconditions are not in the table.",
+        tech="explicit TLA+ decision table (Guards) enumerated by TLC; one replay per exported row on the real API",
+        ref="DESIGN.md §4 C18",
+    ),
+    "C19": dict(
+        text="Partial: decides (b) default cutoff drops nothing and (c) a finite cutoff drops exactly the pairs beyond it. TLC evaluates Batch!CutoffExact / SameMoleculeOnly on the enumerated lattice and on two-fragment batches at separations 8-500 A; the real Parser's pair lists are compared exactly with the specification's, and the number of two-centre integral rows built by the real calculation equals |Pairs|.",
+        note="Not decided: additivity of non-interacting fragments (asymptotic numerics). Cutoffs never coincide with an occurring distance.",
+        tech="explicit TLA+ specification (Batch pair list) evaluated by TLC; exact comparison with the real Parser and its consumers",
+        ref="DESIGN.md §4 C19",
+    ),
     "C03": dict(
         text="TLC checks the SCF control model (get_error data flow, active set, frozen rows, iteration caps, SP2 inner loop, epilogue) exhaustively: mask and returned flags truthful, no re-activation, converged rows frozen, bounded, liveness Terminates; spec mutants must be refuted. A lattice of real single-point jobs (molecules/padded batches/ions/UHF x fixed/adaptive/Pulay x SP2 tolerances x thresholds x start densities x caps) runs with SCF hooks on; every solver span is validated against the model by TLC (SCFTrace), and the self-consistency predicates (symmetry, trace, charge sum, idempotency, commutation, re-diagonalisation, energy functional) are evaluated at API return for every molecule reported converged; an SP2 loop exceeding its iteration budget counts as a call that does not return.",
         note="Predicate bounds are C*max(scf_eps, effective SP2 tolerance)+floor with solver-aware constants calibrated on the unchanged tree (ratios recorded in the evidence); the Fock matrix in the predicates is the code's own, built from the returned density. KSA SCF (undocumented converger 3) is not covered.",
